@@ -31,11 +31,32 @@ ArchiveCase(c) ==
      mkinds |-> <<"flip0", "flip7", "set00", "setff">>,
      perbyte |-> IF Thorough THEN 2 ELSE 1,   \* how many of the four kinds per offset (rotating with offset + seed)
      stride |-> 1,
-     zero4 |-> TRUE, swap |-> TRUE]
+     zero4 |-> TRUE, swap |-> TRUE, big |-> 0, sweep |-> "all"]
+
+\* signed archives larger than one 64 KiB digest unit whose (signature) entry starts k bytes before the unit boundary
+\* (k = 1, 36, 71: straddling; 300: inside the first unit); only the neighbourhood of the entry is altered, all kinds
+BigSigned(k) ==
+    [kind |-> "archive", ver |-> 1, crc |-> FALSE, attrs |-> "none", enc |-> FALSE, comp |-> TRUE, signed |-> TRUE,
+     mkinds |-> <<"flip0", "flip7", "set00", "setff">>, perbyte |-> 4, stride |-> 1,
+     zero4 |-> TRUE, swap |-> FALSE, big |-> k, sweep |-> "around_sig"]
+BigCases == {BigSigned(k) : k \in {1, 36, 71, 300}}
+
+\* intact => verifies, for tables around / above the 0x4000-byte raw chunk (block table = 16 bytes per file)
+IntactCases == {[kind |-> "intact_only", ver |-> 4, attrs |-> a, nfiles |-> n]
+                  : a \in {"none"}, n \in {1022, 1023, 1024, 1025, 1100, 2049}}
+               \cup {[kind |-> "intact_only", ver |-> 4, attrs |-> "full", nfiles |-> 1100],
+                     [kind |-> "intact_only", ver |-> 2, attrs |-> "crc32", nfiles |-> 1025]}
+
+\* signatures of many distinct messages verify (about 1 RSA value in 256 has a zero top byte and needs left padding:
+\* P(no such value among n messages) = (255/256)^n : n = 2000 -> 4.0e-4, n = 8000 -> 2.5e-14)
+SigManyCases == {[kind |-> "sigmany", count |-> IF Thorough THEN 8000 ELSE 2000]}
+\* the signature area at every alignment relative to the 64 KiB digest unit (74 placements incl. all 71 straddling ones)
+SigAlignCases == {[kind |-> "sigalign", unit |-> 65536, after |-> 128]}
 
 SigCases == {[kind |-> "sigbytes", len |-> l, allbits |-> Thorough] : l \in IF Thorough THEN {1, 64, 300, 1000} ELSE {64, 300}}
 
-Cases == SetToSeq({ArchiveCase(c) : c \in Chosen}) \o SetToSeq(SigCases)
+Cases == SetToSeq({ArchiveCase(c) : c \in Chosen}) \o SetToSeq(BigCases) \o SetToSeq(SigCases)
+         \o SetToSeq(IntactCases) \o SetToSeq(SigManyCases) \o SetToSeq(SigAlignCases)
 ASSUME ndJsonSerialize(IOEnv.CASES, Cases)
 ASSUME PrintT(<<"GENERATED", Len(Cases), "archives", Cardinality(Chosen)>>)
 =============================================================================
